@@ -7,7 +7,7 @@ abstract interpretation (constants, +, *, /, >>, div_ceil, min/max, casts) with 
 and the switch edge on which they hold; closures inherit the lower bounds of what they capture at their creation site.
 Only sites whose bound rests on at least one guard are judged; everything else is inventory (not decided)."""
 from ..facts import callee, op_local, op_place, op_const_int, pos_line, place_fields
-from ..mirutil import Defs, alias_closure, find_path_edges
+from ..mirutil import Defs, alias_closure, find_path_edges, strip_generics
 
 ORDER = {"Lt", "Le", "Gt", "Ge"}
 UNSIGNED = {"usize", "u8", "u16", "u32", "u64"}
@@ -345,3 +345,84 @@ def run(ctx, files):
                     "(%s): for sizes in between the offset wraps and the access is out of bounds" % (f.path, r["const"], r["lb"], pos_line(r["pos"]), r["sink"]),
                     fn=f, pos=r["pos"])
     ctx.counts[rid + ".judged"] = judged
+
+
+def run_var_sub(ctx):
+    """unsigned `a - b` between two run-time values in unsafe / target-feature kernels is guarded by a comparison that involves both"""
+    rid = "R-KERNEL-VARSUB"
+    ctx.rule(rid, "in the unsafe and #[target_feature] kernels a wrapped loop bound turns raw loads and stores into out-of-bounds accesses.  "
+                  "Every unsigned subtraction `a - b` of two run-time values there is either in the reviewed table (with the reason it "
+                  "cannot wrap) or dominated by the surviving edge of an ordering comparison whose larger side is `a` and whose smaller "
+                  "side is computed from `b` (e.g. `if width < padding * 2 { return }` before `width - padding`).  A site that loses "
+                  "its guard, and any new unguarded site, is reported")
+    prog = ctx.prog
+    n = 0
+    for f in prog.all_fns():
+        if f.kind == "Promoted" or ":" in f.crate or not f.crate.startswith("jxl_") or not (f.tf or f.unsafe):
+            continue
+        lbs = None
+        k_in_fn = {}
+        for b, blk in enumerate(f.blocks):
+            if f.is_cleanup(b):
+                continue
+            for st in blk[0]:
+                if st[0] != "=" or st[2][0] != "bin" or st[2][1] not in ("SubWithOverflow", "Sub", "SubUnchecked"):
+                    continue
+                if op_const_int(st[2][3]) is not None or op_const_int(st[2][2]) is not None:
+                    continue
+                a, bb = op_local(st[2][2]), op_local(st[2][3])
+                if a is None or bb is None or f.local_ty(a) not in UNSIGNED:
+                    continue
+                if lbs is None:
+                    lbs = LowerBounds(prog, f)
+                    ctx.seen(f)
+                ra, rb = lbs.root(a), lbs.root(bb)
+
+                def deps(o, depth=0, seen=None):
+                    seen = seen if seen is not None else set()
+                    p = op_place(o)
+                    if p is None or depth > 8:
+                        return seen
+                    r = lbs.root(p[0])
+                    if r in seen:
+                        return seen
+                    seen.add(r)
+                    for dd in lbs.defs.of(r):
+                        if dd[2] != "assign":
+                            continue
+                        rv = dd[3][2]
+                        for o2 in ([rv[2], rv[3]] if rv[0] == "bin" else ([rv[1]] if rv[0] == "use" else ([rv[2]] if rv[0] == "cast" else []))):
+                            deps(o2, depth + 1, seen)
+                    return seen
+                guarded = False
+                for small, big, edge, strict in lbs.rel:
+                    bl = op_local(big)
+                    if bl is None or lbs.root(bl) != ra or not lbs.holds(edge, b):
+                        continue
+                    if rb in deps(small):
+                        guarded = True
+                n += 1
+                names = (f.local_name(ra) or "_", f.local_name(rb) or "_")
+                base = "%s|%s - %s" % (strip_generics(f.path), names[0], names[1])
+                k_in_fn[base] = k_in_fn.get(base, 0) + 1
+                key = base + ("#%d" % k_in_fn[base] if k_in_fn[base] > 1 else "")
+                why = next((w for (suffix, nm), w in VARSUB_REVIEWED.items() if f.path.endswith(suffix) and nm == "%s - %s" % names), None)
+                if guarded:
+                    ctx.ok(rid, key, "dominated by a comparison of the two operands", nontrivial=True, fn=f)
+                elif why:
+                    ctx.ok(rid, key, "reviewed: " + why, fn=f)
+                else:
+                    ctx.bad(rid, key + "|unguarded", "`%s - %s` (usize) is not dominated by a comparison of the two values and is not a reviewed site: if it "
+                            "wraps, the loop bounds / offsets computed from it make the kernel's raw accesses run out of bounds" % names, fn=f, pos=st[3])
+    ctx.count(rid + ".sites", n)
+    ctx.floor(rid + ".sites", 11)
+
+
+VARSUB_REVIEWED = {
+    ("squeeze::inverse_h_i16_x86_64_avx2", "_ - _"): "remaining-column count inside the `while` whose condition is the comparison of the same two values",
+    ("squeeze::inverse_h_i16_x86_64_sse41", "_ - _"): "remaining-column count inside the `while` whose condition is the comparison of the same two values",
+    ("filter::epf::run_epf_rows", "height - dy"): "dy ranges over 0..height (loop variable of the enclosing range)",
+    ("filter::epf::run_epf_rows", "image_y - top"): "image_y = top + y by construction",
+    ("vardct::x86_64::dct::dct", "n - idx"): "idx ranges over 0..n / 2 (loop variable)",
+    ("vardct::x86_64::dct::dct", "_ - idx"): "idx ranges over a prefix of the same length (loop variable)",
+}
